@@ -86,6 +86,9 @@ func main() {
 		for wi, w := range wits {
 			for ci, m := range modes {
 				h := witH[wi*len(modes)+ci]
+				if timedOut(c, h) {
+					continue
+				}
 				for k := range h {
 					c.Hist("edit", "witness-"+w.Name)
 					oracle(c, 1000+wi, h, k, m)
@@ -95,6 +98,9 @@ func main() {
 		}
 		for i, h := range shapes {
 			o := shapeOpts[i]
+			if timedOut(c, h) {
+				continue
+			}
 			nontrivial := false
 			for k := range h {
 				st := &h[k]
@@ -132,6 +138,9 @@ func main() {
 		}
 		memoPart(c, base)
 		for i, h := range all {
+			if timedOut(c, h) {
+				continue
+			}
 			restored := false
 			for k := range h {
 				st := &h[k]
@@ -145,6 +154,18 @@ func main() {
 			c.Case(engCase(h), histJSON(i, h, len(h)-1, mode(i)), e2e.EngKey(h)+mode(i), restored)
 		}
 	})
+}
+
+// timedOut: a plz invocation of the history was killed by the harness timeout (overloaded machine): the history says nothing
+// about the property or the model, it is counted and dropped (as in cmd/c01).
+func timedOut(c *lib.Ctx, h []e2e.EngStep) bool {
+	for k := range h {
+		if h[k].TimedOut || h[k].Exit == -9 || h[k].CleanExit == -9 {
+			c.Hist("edit", "timed-out")
+			return true
+		}
+	}
+	return false
 }
 
 // the engine histories are one constructor of C02.case (the other: traces against the real path hasher, memo.go)
